@@ -67,15 +67,30 @@ PayoffsOK(t, Pr) ==
   IN /\ a.payoffs = b.payoffs \/ Report(t, 0, "twin-payoffs", Pr.kind, {}, {}, <<a.payoffs, b.payoffs>>)
      /\ a.stacks = b.stacks \/ Report(t, 0, "twin-stacks", Pr.kind, {}, {}, <<a.stacks, b.stacks>>)
 
+\* A history written from a hand that is over must replay to exactly its actions.  One written from a hand cut short replays
+\* to those actions and then goes on with the mechanical completion of omitted steps (unknown cards, shows): the original's
+\* actions up to the last player action are a prefix of the replay's, and each dealing it had begun after that is continued.
+LastAct(a) == Max({0} \cup {j \in DOMAIN a : a[j][1] # "d"})
+ActionsOK(t, Pr, a, b) ==
+  IF ~Final(Pr.A).status THEN a = b \/ Report(t, 0, "twin-actions", Pr.kind, {}, {}, <<"first difference", FirstDiff(a, b)>>)
+  ELSE LET n == LastAct(a)
+           blockB == {j \in (n + 1)..Len(b) : \A x \in (n + 1)..j : b[x][1] = "d"}
+       IN /\ (n <= Len(b) /\ SubSeq(a, 1, n) = SubSeq(b, 1, n))
+                \/ Report(t, 0, "twin-actions", Pr.kind, {}, {}, <<"first difference", FirstDiff(SubSeq(a, 1, n), b)>>)
+          /\ \A j \in (n + 1)..Len(a) :
+                (\E x \in blockB : b[x][2] = a[j][2] /\ Len(b[x][4]) >= Len(a[j][4]) /\ SubSeq(b[x][4], 1, Len(a[j][4])) = a[j][4])
+                \/ Report(t, 0, "twin-actions", Pr.kind, {}, {}, <<"dealing not continued", a[j]>>)
+
 PhhOK(t, Pr) ==
   LET a == PhhActions(FullLog(Pr.A))
       b == PhhActions(FullLog(Pr.B))
-  IN /\ a = b \/ Report(t, 0, "twin-actions", Pr.kind, {}, {}, <<"first difference", FirstDiff(a, b)>>)
-     /\ PayoffsOK(t, Pr)
+  IN /\ ActionsOK(t, Pr, a, b)
+     /\ Final(Pr.A).status \/ PayoffsOK(t, Pr)
      /\ LET fa == Final(Pr.A)
             fb == Final(Pr.B)
-        IN /\ fa.board = fb.board \/ Report(t, 0, "twin-cards", Pr.kind, {"board"}, {}, <<fa.board, fb.board>>)
-           /\ fa.status = fb.status \/ Report(t, 0, "twin-state", Pr.kind, {"status"}, {}, <<fa.status, fb.status>>)
+        IN /\ (~fa.status => fa.board = fb.board) \/ Report(t, 0, "twin-cards", Pr.kind, {"board"}, {}, <<fa.board, fb.board>>)
+           /\ (~fa.status => ~fb.status) \/ Report(t, 0, "twin-state", Pr.kind, {"status"}, {}, <<fa.status, fb.status>>)
+           /\ (~fa.status => fa.hole = fb.hole) \/ Report(t, 0, "twin-cards", Pr.kind, {"hole"}, {}, <<fa.hole, fb.hole>>)
 
 TwinOK(t, Pr) ==
   /\ FlagsOK(t, Pr)
@@ -94,6 +109,8 @@ Init ==
   /\ S = IF Pairs[tid].A.create.out = "ok" THEN Pairs[tid].A.create.post ELSE [fault |-> "create"]
 
 EndOf(H) == l = Len(H.steps) \/ S.fault # ""
+\* a "raw" hand is not validated step by step (a replay driven by the library itself): only its log and final state are used
+IsRaw(H) == "raw" \in DOMAIN H /\ H.raw
 
 Next ==
   \/ /\ side \in {"A", "B"}
@@ -108,7 +125,7 @@ Next ==
      /\ EndOf(Pairs[tid].A)
      /\ side' = "B"
      /\ l' = 0
-     /\ Force(CreateOK(tid, Pairs[tid].B))
+     /\ Force(IsRaw(Pairs[tid].B) \/ CreateOK(tid, Pairs[tid].B))
      /\ S' = IF Pairs[tid].B.create.out = "ok" THEN Pairs[tid].B.create.post ELSE [fault |-> "create"]
      /\ UNCHANGED tid
   \/ /\ side = "B"
